@@ -71,6 +71,8 @@ def drive(ctx):
     locs = locale_names()
     vals = values(rnd)
     n = 0
+    for loc in ctx.mine(locs):
+        ctx.emit("locale_tables", {"locale": loc, "scope": "ordinal"})      # the ordinal rule behind the Do token
     work = []
     for v in vals:
         for t in TOKENS:
